@@ -87,6 +87,16 @@ def W.unboundResult (w : W) (r : Ref) (kind : String) : Bool :=
   | some di => isVoidKind kind && !(w.docs[di]!).overflowed
   | none => false
 
+/-- slots that hold a value reachable from `v` (elements of arrays, the value slot of every member; key slots excluded) -/
+def valueSlotsF (d : Doc) : Nat → VData → List Nat
+  | 0, _ => []
+  | f + 1, .arr h _ => let c := d.chain h; c ++ c.flatMap (fun i => valueSlotsF d f (d.get (.slot i)))
+  | f + 1, .obj h _ =>
+    let c := d.chain h
+    let vs := (c.zipIdx.filter (fun p => p.2 % 2 == 1)).map (·.1)
+    vs ++ vs.flatMap (fun i => valueSlotsF d f (d.get (.slot i)))
+  | _ + 1, _ => []
+
 def step (w : W) (ws : List String) : String × W :=
   match ws with
   | "obs" :: rs =>
@@ -254,7 +264,8 @@ def step (w : W) (ws : List String) : String × W :=
   | ["liveq"] =>
     -- which references may still be used: unbound (u), root of document d (R<d>), reachable slot of document d (S<d>), dangling (x).
     -- A reference seen dangling stays dangling until it is bound to something else (its slot id may be reused, the C++ pointer is stale).
-    let reach := w.docs.toList.map (fun (d : Doc) => d.reach d.root)
+    -- only value positions count: a slot that was released and handed out again as the KEY slot of a new member no longer designates a value
+    let reach := w.docs.toList.map (fun (d : Doc) => valueSlotsF d d.fuel d.root)
     let isDangling (r : Ref) : Bool :=
       match r.doc, r.loc with
       | some di, some (.slot id) => !((reach.getD di []).contains id)
